@@ -683,19 +683,24 @@ impl<K: CacheKey + 'static> AsyncCache<K> for DiskCache<K> {
         // writers always see a file and an index entry that belong together.
         let mut attempts = 0;
         loop {
+            // A concurrent clear() can remove the (sub)directory between its
+            // creation and the creation of the temporary file (ENOENT), or while
+            // create_dir_all is re-checking a directory it found existing (EEXIST)
+            let wiped_by_clear = |e: &std::io::Error| {
+                matches!(
+                    e.kind(),
+                    std::io::ErrorKind::NotFound | std::io::ErrorKind::AlreadyExists
+                )
+            };
             let temp_path = match self.write_temp_file(&file_path, &value).await {
                 Ok(path) => path,
-                // A concurrent clear() removed the (sub)directory between its
-                // creation and the creation of the temporary file: try again.
-                Err(CacheError::Io(e))
-                    if e.kind() == std::io::ErrorKind::NotFound && attempts < 2 =>
-                {
+                Err(CacheError::Io(e)) if wiped_by_clear(&e) && attempts < 2 => {
                     attempts += 1;
                     continue;
                 }
                 // Every attempt was wiped by concurrent clear() calls: the value
                 // counts as stored and cleared again, which is not a failure.
-                Err(CacheError::Io(e)) if e.kind() == std::io::ErrorKind::NotFound => {
+                Err(CacheError::Io(e)) if wiped_by_clear(&e) => {
                     return Ok(());
                 }
                 Err(e) => return Err(e),
